@@ -188,7 +188,9 @@ pub fn gen(seed: u64, count: usize, _tier: &str, _params: &Params) -> Vec<Value>
             0 => cases.push(json!({"class": "single", "s1": s1})),
             1 | 2 => {
                 let mut s2 = s1.clone();
-                match rng.below(4) { 0 => {}, 1 => { s2.reverse(); }, 2 => { let k = rng.below(nd as u64) as usize; s2[k] += 1; }, _ => { let k = rng.below(nd as u64) as usize; s2[k] = 0; } }
+                // ... including arguments of another rank (dynamic dimensions): a trailing / leading unit axis, a prefix of the shape
+                match rng.below(7) { 0 => {}, 1 => { s2.reverse(); }, 2 => { let k = rng.below(nd as u64) as usize; s2[k] += 1; }, 3 => { let k = rng.below(nd as u64) as usize; s2[k] = 0; }
+                                     4 => { s2.push(1); }, 5 => { s2.insert(0, 1); }, _ => { if s2.len() > 1 { s2.pop(); } else { s2.push(rng.range(1, 3)); } } }
                 cases.push(json!({"class": if rng.chance(1, 4) { "sum_pair" } else { "pair" }, "s1": s1, "s2": s2}));
             }
             3 | 4 => {
